@@ -99,8 +99,11 @@ class CategoricalTensorMapper(TensorMapper):
         # an all-missing object column against an integer category index.
         categories = self.categories.set_axis(
             self.categories.index.astype(object))
+        # NOTE: Drop the index labels: only positions matter, and an index
+        # level that happens to be named 'data' would make the merge key
+        # ambiguous.
         index = pd.merge(
-            ser.rename('data').astype(object),
+            ser.rename('data').astype(object).reset_index(drop=True),
             categories,
             how='left',
             left_on='data',
